@@ -3,7 +3,7 @@
    message and extension parsers behind it are explored under sanitizers only, see props/C08.py).
    Only statements closed by `exact`; the proofs live in Wire/WireProofs.v.
    [all_fixed] = the code with the pending C08 patches; [as_found] = the code as it was found. *)
-From MV Require Import Base.Bytes Gen.Consts Gen.ConstsDtls Gen.ConstsWire Dtls.DtlsModel Wire.WireModel Wire.WireSpec Wire.WireProofs.
+From MV Require Import Base.Bytes Gen.Consts Gen.ConstsDtls Gen.ConstsWire Dtls.DtlsModel Wire.WireModel Wire.WireSpec Wire.WireProofs Wire.PbufModel Wire.PbufSpec Wire.PbufProofs.
 From Coq Require Import ZArith List.
 Local Open Scope Z_scope.
 
@@ -136,3 +136,79 @@ Theorem c08_cbc_layout_in_range : forall rec_len mac_size block_size pad_len eiv
   (cl_mac_error l = false -> 0 <= cl_pad_lo l /\ cl_mac_off l + mac_size = cl_pad_lo l /\ cl_pad_lo l + pad_len + 1 = rec_len).
 Proof. exact cbc_layout_in_range. Qed.
 Print Assumptions c08_cbc_layout_in_range.
+
+(* ---- (f) core/src/psbuf.c + psbuf.h parse primitives (what tls13Decode*.c is written with).
+   psParseTlsVariableLengthVec computes exactly its pointer-free specification and reads only inside [s, e) *)
+Theorem c08_vec_no_fault : forall b s e mn mx, 0 <= s -> s <= e -> e <= lenZ b ->
+  parse_tls_vec b s e mn mx = Ok (vec_spec b s e mn mx).
+Proof. exact parse_tls_vec_spec. Qed.
+Print Assumptions c08_vec_no_fault.
+
+(* an accepted vector - length octets and body - lies inside [s, e); a non-empty vector type makes progress *)
+Theorem c08_vec_in_range : forall b s e mn mx n d, vec_spec b s e mn mx = VOk n d ->
+  n = num_len_bytes mx /\ 0 <= n <= 3 /\ 0 <= d /\ s + n + d <= e /\ mn <= d <= mx /\ (0 < mx -> 1 <= n).
+Proof. exact vec_spec_in_range. Qed.
+Print Assumptions c08_vec_in_range.
+
+(* PS_LIMIT_FAIL exactly when the length octets or the body do not fit or the length is outside min..max;
+   success exactly in the complementary case, with the encoded length *)
+Theorem c08_vec_limit_iff : forall b s e mn mx, mx <= two24 ->
+  let n := num_len_bytes mx in let len := enc_len b s (Z.to_nat n) 0 in
+  (vec_spec b s e mn mx = VErr c_PS_LIMIT_FAIL <-> (e - s < n \/ e - s - n < len \/ len < mn \/ mx < len)) /\
+  (vec_spec b s e mn mx = VOk n len <-> (n <= e - s /\ len <= e - s - n /\ mn <= len <= mx)).
+Proof. exact vec_spec_limit_iff. Qed.
+Print Assumptions c08_vec_limit_iff.
+
+(* the variant that tests the body against `end - start` (length octets still counted) accepts a body that
+   ends behind `end` *)
+Theorem c08_vec_avail_variant_refuted :
+  parse_tls_vec_avail [0; 4; 1; 2]%N 0 4 0 65535 = Ok (VOk 2 4) /\ 0 + 2 + 4 > 4 /\
+  parse_tls_vec [0; 4; 1; 2]%N 0 4 0 65535 = Ok (VErr c_PS_LIMIT_FAIL).
+Proof. exact avail_variant_overclaims. Qed.
+Print Assumptions c08_vec_avail_variant_refuted.
+
+(* the psParseBuf primitives: on a parse buffer inside its object none of them faults; a successful one
+   advanced the buffer by exactly what it consumed, a failed one left it alone *)
+Theorem c08_pb_octet : forall b pb, wf_pb b pb -> exists r, pb_octet b pb = Ok r /\ op_post b pb 1 r.
+Proof. exact pb_octet_ok. Qed.
+Print Assumptions c08_pb_octet.
+Theorem c08_pb_be16 : forall b pb, wf_pb b pb -> exists r, pb_be16 b pb = Ok r /\ op_post b pb 2 r.
+Proof. exact pb_be16_ok. Qed.
+Print Assumptions c08_pb_be16.
+Theorem c08_pb_be32 : forall b pb, wf_pb b pb -> exists r, pb_be32 b pb = Ok r /\ op_post b pb 4 r.
+Proof. exact pb_be32_ok. Qed.
+Print Assumptions c08_pb_be32.
+Theorem c08_pb_try_octets : forall b pb n store, wf_pb b pb -> 0 <= n ->
+  exists r, pb_try_octets b pb n store = Ok r /\ op_post b pb n r /\
+            (forall v pb', r = (Some v, pb') -> store = true -> lenZ v = n).
+Proof. exact pb_try_octets_ok. Qed.
+Print Assumptions c08_pb_try_octets.
+Theorem c08_pb_try_forward : forall b pb n, wf_pb b pb -> 0 <= n ->
+  let '(k, pb') := pb_try_forward pb n in wf_pb b pb' /\ ((k = n /\ advanced pb pb' n) \/ (k = 0 /\ pb' = pb)).
+Proof. exact pb_try_forward_ok. Qed.
+Print Assumptions c08_pb_try_forward.
+(* psParseForward does not check: it is safe exactly behind a psParseCanRead of the same length *)
+Theorem c08_pb_forward : forall b pb n, wf_pb b pb -> 0 <= n -> pb_can_read pb n = true -> wf_pb b (pb_forward pb n).
+Proof. exact pb_forward_ok. Qed.
+Print Assumptions c08_pb_forward.
+Theorem c08_pb_rec_hdr : forall b pb, wf_pb b pb -> exists r, pb_rec_hdr b pb = Ok r /\ op_post b pb 5 r.
+Proof. exact pb_rec_hdr_ok. Qed.
+Print Assumptions c08_pb_rec_hdr.
+Theorem c08_pb_hs_hdr : forall b pb, wf_pb b pb -> exists r, pb_hs_hdr b pb = Ok r /\ op_post b pb 4 r.
+Proof. exact pb_hs_hdr_ok. Qed.
+Print Assumptions c08_pb_hs_hdr.
+(* psParseBufParseTlsVector: afterwards the pb stands on the first body octet and the whole body is readable *)
+Theorem c08_pb_tls_vector : forall b pb mn mx, wf_pb b pb ->
+  exists r pb', pb_tls_vector b pb mn mx = Ok (r, pb') /\ wf_pb b pb' /\
+    match r with
+    | VOk n d => advanced pb pb' n /\ pb_can_read pb' d = true /\ mn <= d <= mx /\ 0 <= d /\ (0 < mx -> 1 <= n)
+    | VErr rc => pb' = pb /\ rc < 0
+    end.
+Proof. exact pb_tls_vector_ok. Qed.
+Print Assumptions c08_pb_tls_vector.
+(* psParseBufCopyN: source inside the pb, never more than *targetlen stored *)
+Theorem c08_pb_copy_n : forall b pb req ht tl, wf_pb b pb -> 0 <= req -> 0 <= tl ->
+  exists rc v tl', pb_copy_n b pb req ht tl = Ok (rc, v, tl') /\ lenZ v <= tl /\
+    (rc = c_PS_SUCCESS -> lenZ v = tl' /\ tl' = Z.min req (pb_end pb - pb_start pb)).
+Proof. exact pb_copy_n_ok. Qed.
+Print Assumptions c08_pb_copy_n.
